@@ -68,3 +68,40 @@ def explore(exe, hargs, bound=-1, spur=0, procs=16, deadline=0, save=None, nohas
 
 def replay(exe, hargs, sched_file):
     return run_tool([exe, "--replay", sched_file, "--"] + [str(a) for a in hargs], timeout=120)
+
+
+def build_bp_explorer(sd, name="bp_explore", v=None, extra_flags=(), xxh_bits=None):
+    """block processor harness on the controlled pool. xxh_bits: truncate xxh32 to that many bits (C08)."""
+    v = v or build.variant("asan")
+    cf = cflags(v)
+    libdir = os.path.join(sd, name + "_libs")
+    libs, objmap = build.lib_objects(v, libdir)
+    objs = []
+    o = os.path.join(sd, name + "_h.o")
+    build._cc(["clang"] + cf + list(extra_flags) + ["-include", os.path.join(ENG, "vs_shim.h"), "-c", os.path.join(ENG, "bp_harness.c"), "-o", o])
+    objs.append(o)
+    for s in ("vs.c", "explore.c"):
+        o = os.path.join(sd, name + "_" + s[:-2] + ".o")
+        build._cc(["clang"] + cf + ["-c", os.path.join(ENG, s), "-o", o])
+        objs.append(o)
+    o = os.path.join(sd, name + "_bp.o")
+    build._cc(["clang"] + cf + ["-Dthread_pool_create=bp_pool_create", "-c",
+                                os.path.join(build.REPO, "lib/sqfs/src/block_processor/block_processor.c"), "-o", o])
+    objs.append(o)
+    o = os.path.join(sd, name + "_serial.o")
+    build._cc(["clang"] + cf + ["-c", os.path.join(build.REPO, "lib/util/src/threadpool_serial.c"), "-o", o])
+    objs.append(o)
+    if xxh_bits is not None:
+        o = os.path.join(sd, name + "_xxh.o")
+        build._cc(["clang"] + cf + ["-Dxxh32=vf_real_xxh32", "-c", os.path.join(build.REPO, "lib/util/src/xxhash.c"), "-o", o])
+        objs.append(o)
+        w = os.path.join(sd, name + "_xxhw.c")
+        open(w, "w").write("#include <stddef.h>\n#include <stdint.h>\nuint32_t vf_real_xxh32(const void *, size_t);\n"
+                           "uint32_t xxh32(const void *p, size_t n) { return vf_real_xxh32(p, n) & ((1u << %d) - 1u); }\n" % xxh_bits)
+        o2 = os.path.join(sd, name + "_xxhw.o")
+        build._cc(["clang"] + v.cflags + ["-c", w, "-o", o2])
+        objs.append(o2)
+    exe = os.path.join(sd, name)
+    build._cc(["clang"] + v.cflags + v.ldflags + ["-o", exe] + objs + [libs["libsquashfs_la"], libs["libutil_a"], libs["libcompat_a"]] +
+              ["-lz", "-llzma", "-llz4", "-lzstd", "-lpthread"])
+    return exe
